@@ -193,7 +193,7 @@ def expected_model(spec: dict, outcomes: list) -> list:
                     a.units = units_str(un)
                     a.units_assigned = True
             name = op['name']
-            o = ExpObj(i, kind, op.get('lf', 0), t['set'], op.get('set_name'), name, attrs,
+            o = ExpObj(i, kind, op.get('lf', 0), t['set'], op.get('set_name') or None, name, attrs,
                        op.get('origin_reference'), origin_seen[op.get('lf', 0)])
             if kind == 'origin':
                 origin_seen[op.get('lf', 0)] = True
@@ -235,6 +235,13 @@ def expected_model(spec: dict, outcomes: list) -> list:
                     l.header_id = op['value']
                 elif op['field'] == 'sequence_number':
                     l.seq = op['value']
+        elif kind == 'rename_set':
+            if ok and op['target'] in objs:
+                t_ = objs[op['target']]
+                key = (t_.lf, t_.set_type, t_.set_name)
+                for o in lfs[t_.lf].objects:
+                    if (o.lf, o.set_type, o.set_name) == key:
+                        o.set_name = op['value'] or None
         elif kind == 'setattr':
             if not ok or op['target'] not in objs:
                 continue
